@@ -9,7 +9,7 @@ import re
 
 from hypothesis import strategies as st
 
-from hx import hyp, scenario
+from hx import hyp, scenario, solve
 
 PROPERTY = 'C16'
 LEVEL = 'exploration'
@@ -43,8 +43,10 @@ def fnum(x):
     return float(x) if isinstance(x, (int, float)) and not isinstance(x, bool) else 0.0
 
 
-def solve_vals(sc, inputs):
-    r = scenario.resolve({'year': sc['year'], 'forms': sc['forms'], 'inputs': inputs}, want_solution=False)
+def solve_vals(sc, inputs, pol=None):
+    # pol: inputs that only the changed return demands are answered by the persona's policy, as when it was built
+    fn = (lambda inp, nb: pol.answer(inp)) if pol is not None else None
+    r = scenario.resolve({'year': sc['year'], 'forms': sc['forms'], 'inputs': inputs}, answer_fn=fn, want_solution=False)
     if r.exc is not None or not r.verdict:
         return None
     return r
@@ -121,7 +123,7 @@ def shard(ctx, k, payload):
         p['n_w2'] = max(p['n_w2'], data.draw(st.sampled_from([1, 2, 3])))
         if data.draw(st.integers(0, 2)) == 0:
             # several payers with enough interest/dividends for Schedule B (per-payer listing lines)
-            p.update(n_int=data.draw(st.sampled_from([2, 3])), n_div=data.draw(st.sampled_from([0, 2])), big_interest=True, amount_bias='large')
+            p.update(n_int=data.draw(st.sampled_from([1, 2, 3])), n_div=data.draw(st.sampled_from([0, 2, 3])), big_interest=True, amount_bias='large')
         if data.draw(st.integers(0, 5)) == 0:
             # state withholding on statements of both spouses (NC lines 20a/20b walk every payer statement)
             p.update(forms=['1040', 'nc_d-400'], status='MarriedFilingJointly', n_r=data.draw(st.sampled_from([2, 3])), both_spouses_1099r=True,
@@ -134,6 +136,7 @@ def shard(ctx, k, payload):
         inputs = sc['inputs']
         ctx.count('bases')
         bq = quantities(base)
+        pol = scenario.Policy(p, data.draw)
         read = {key for _, reads, _ in base.trace.attempts for kind, key, o, _v in reads if kind == 'i' and o == 'ok'}
         for _ in range(nvar):
             kind = data.draw(st.sampled_from(['perm', 'perm', 'wage', 'wage', 'deduct', 'deduct', 'withhold']))
@@ -220,11 +223,17 @@ def shard(ctx, k, payload):
             inp2[key] = f'{old + delta:.2f}'
             case.update(key=key, delta=delta)
             bqp = bq_pair
-            r2 = solve_vals(sc, inp2)
+            r2 = solve_vals(sc, inp2, pol)
             ctx.case()
             if r2 is None:
                 ctx.count(f'pairs_dropped_second_unsolved:{kind}')
                 continue
+            if len(r2.trace.prompts):
+                # the changed return demanded inputs the first one never read: keep them in the replayable case
+                ctx.count('pairs_second_needed_more_inputs')
+                done_ = solve.config_to_dict(r2.store.config)
+                done_[key] = inputs_pair.get(key, '0')
+                case = dict(case, scenario=dict(case['scenario'], inputs=done_))
             q2 = quantities(r2)
             ctx.count('pairs:' + kind)
             kb = key.split('.')[0].split(':')[0] + '.' + key.split('.')[1]
@@ -289,6 +298,8 @@ def shard_cliffs(ctx, k, payload):
         forms = data.draw(st.sampled_from([['1040'], ['1040', 'nc_d-400'], ['1040', 'nc_d-400']]))
         p = data.draw(scenario.personas(forms=forms))
         p['n_w2'] = max(p['n_w2'], 1)
+        if data.draw(st.booleans()):
+            p.update(itemize=True, n_1098=max(1, p['n_1098']))
         if data.draw(st.booleans()) and not any(x == 'ctc' for x in p['deps']):
             p['deps'] = ['ctc'] * data.draw(st.sampled_from([1, 1, 2]))
             p = scenario.constrain(p)
@@ -311,6 +322,41 @@ def shard_cliffs(ctx, k, payload):
         if len(ts) > max_t:
             ctx.count('cliff:bases_with_sampled_thresholds')
             ts = sorted(data.draw(st.lists(st.sampled_from(ts), min_size=max_t, max_size=max_t, unique=True)))
+        # deduction cliffs: a deductible amount standing exactly on an amount a participating form writes as a literal,
+        # and a little above it - the larger deduction must not raise the tax
+        pol = scenario.Policy(p, data.draw)
+        dkeys = sorted(k_ for k_ in inputs if matches(k_, DEDUCTIBLE))
+        own = {}
+        for f_ in base.solver.forms.values():
+            own[f_.name().split(':')[0]] = [c_ for c_ in mock.form_thresholds(f_) if 50 <= c_ <= 25000 and c_ != sc['year']]
+        pairs_ = []
+        for dk in dkeys:
+            fb_ = dk.split('.')[0].split(':')[0]
+            fb_ = {'1098': '1040_sa', '1099-int': '1040_s1'}.get(fb_, fb_)
+            pairs_ += [(dk, dt) for dt in own.get(fb_, [])]
+        if len(pairs_) > 40:
+            pairs_ = data.draw(st.lists(st.sampled_from(pairs_), min_size=40, max_size=40, unique=True))
+        for dk, dt in pairs_:
+            eps_ = data.draw(st.sampled_from([0.01, 1.0, 100.0]))
+            rb = solve_vals(sc, dict(inputs, **{dk: f'{dt + eps_:.2f}'}), pol)
+            # the first return of the pair gets the answers the second one needed as well (same supplied values but dk)
+            full_ = dict(solve.config_to_dict(rb.store.config), **{dk: f'{dt:.2f}'}) if rb is not None else dict(inputs, **{dk: f'{dt:.2f}'})
+            ra = solve_vals(sc, full_, pol)
+            ctx.case()
+            if ra is None:
+                ctx.count('deduct_cliff:first_unsolved')
+                continue
+            if rb is None:
+                ctx.count('deduct_cliff:second_unsolved')
+                continue
+            ctx.count('deduct_cliff:pairs')
+            qa, qb = quantities(ra), quantities(rb)
+            kb_ = dk.split('.')[0].split(':')[0] + '.' + dk.split('.')[1]
+            if qb['tax24'] > qa['tax24'] + 0.011:
+                ctx.violation(f'deduct:tax-increases:{kb_}', f'{sc["year"]}: {dk} {dt} -> {dt + eps_} raises total tax from {qa["tax24"]} to {qb["tax24"]}',
+                              {'scenario': {'year': sc['year'], 'forms': sc['forms'], 'inputs': dict(solve.config_to_dict(ra.store.config), **{dk: f'{dt:.2f}'})}, 'kind': 'deduct', 'key': dk, 'delta': eps_})
+            if qa['tax24'] != qb['tax24']:
+                ctx.nt(f'dcliff|{sc["year"]}|{dk}|{dt}|{eps_}')
         # from the highest down; below some income the household enters a range HabuTax does not compute
         # (earned income credit), so after four consecutive unsolved returns the descent stops
         streak = 0
